@@ -93,6 +93,9 @@ def run(s):
                 K.run_case(s, ro_txt, kind, kw, pretty=rng.random() < 0.5, ctx={'shapes': shapes})
     K.fuzz(s, 120 if q else 10000, K.kind_weights(1, 1, 0.2), steps=(5, 25),
            shape_weights=(0.45, 0.3, 0.2, 0.05), selfref=0.15)
+    # messages that lack a tag the schema requires (one element dropped, anywhere)
+    K.fuzz(s, 200 if q else 8000, K.kind_weights(1, 1, 0.3), steps=(6, 20),
+           shape_weights=(0.9, 0.05, 0.05, 0.0), selfref=0.02, drop=0.6)
     collections(s, 80 if q else 6000)
     odd_timing_inserts(s, 3 if q else 60)
 
